@@ -266,6 +266,16 @@ class Macro(Composite, StaticNode, ScrapesIO, ABC):
             () if self._output_labels is None else self._output_labels,
             strict=False,
         ):
+            if node.channel.value_receiver is not None:
+                # A channel forwards its value to a single receiver, so a second output
+                # label for the same channel would silently starve the first one
+                raise ValueError(
+                    f"The macro {self.full_label} returns the channel "
+                    f"{node.channel.full_label} more than once (again as "
+                    f"'{output_channel_label}'), but a channel can only be linked to "
+                    f"one macro output -- please return each channel once, e.g. by "
+                    f"routing it through an additional node."
+                )
             node.channel.value_receiver = self.outputs[output_channel_label]
 
         remaining_ui_nodes = self._purge_single_use_ui_nodes(ui_nodes)
